@@ -20,11 +20,9 @@ type statsManager struct {
 
 func (s *statsManager) getClientStats(clientID string) (stats *ClientStats) {
 	if stats = s.clientStats[clientID]; stats == nil {
-		subStats, _ := s.subStatsReader.GetClientStats(clientID)
-
-		stats = &ClientStats{
-			SubscriptionStats: subStats,
-		}
+		// The subscription statistics are read from the subscription store by GetClientStats.
+		// Do not call into the store here: callers may already hold the store lock (see GetClientStats).
+		stats = &ClientStats{}
 		s.clientStats[clientID] = stats
 	}
 	return stats
@@ -477,17 +475,20 @@ func (s *statsManager) GetGlobalStats() GlobalStats {
 // GetClientStats returns the client statistic information for given client id.
 func (s *statsManager) GetClientStats(clientID string) (ClientStats, bool) {
 	s.clientMu.Lock()
-	defer s.clientMu.Unlock()
-	if stats := s.clientStats[clientID]; stats == nil {
+	stats := s.clientStats[clientID]
+	if stats == nil {
+		s.clientMu.Unlock()
 		return ClientStats{}, false
-	} else {
-		s, _ := s.subStatsReader.GetClientStats(clientID)
-		return ClientStats{
-			PacketStats:       *stats.PacketStats.copy(),
-			MessageStats:      *stats.MessageStats.copy(),
-			SubscriptionStats: s,
-		}, true
 	}
+	rs := ClientStats{
+		PacketStats:  *stats.PacketStats.copy(),
+		MessageStats: *stats.MessageStats.copy(),
+	}
+	s.clientMu.Unlock()
+	// Never take the subscription store lock while holding clientMu: message delivery takes them in the
+	// opposite order (store lock held by Iterate -> queue notifier -> clientMu).
+	rs.SubscriptionStats, _ = s.subStatsReader.GetClientStats(clientID)
+	return rs, true
 
 }
 
